@@ -127,7 +127,10 @@ class Monitor:
                 if not chosen:
                     continue
                 nb += 1
-                bdir = os.path.join(self.root, 'batch%d' % nb)
+                # like hephaestus._run: a fresh tempfile.mkdtemp() directory (the tool's
+                # path regex only admits [A-Za-z0-9/_], which mkdtemp names satisfy)
+                import tempfile
+                bdir = tempfile.mkdtemp()
                 src = os.path.join(bdir, 'src')
                 for f in chosen:
                     d = os.path.join(src, f['pkg'])
